@@ -210,7 +210,7 @@ where
                     return Err(SpecViolation::Connack_3_2_2_11.into());
                 }
 
-                if inner.sink.is_closed()
+                if inner.sink.is_io_closed()
                     && self
                         .cfg
                         .handle_qos_after_disconnect
@@ -286,7 +286,7 @@ where
                 self.inner.control(ProtocolMessage::ping()).await
             }
             Decoded::Packet(Packet::Subscribe { packet_id, topic_filters }, size) => {
-                if self.inner.sink.is_closed() {
+                if self.inner.sink.is_io_closed() {
                     Ok(None)
                 } else if topic_filters.iter().any(|(tf, _)| !crate::topic::is_valid(tf)) {
                     Err(SpecViolation::Subs_4_7_1.into())
@@ -308,7 +308,7 @@ where
                 }
             }
             Decoded::Packet(Packet::Unsubscribe { packet_id, topic_filters }, size) => {
-                if self.inner.sink.is_closed() {
+                if self.inner.sink.is_io_closed() {
                     Ok(None)
                 } else if topic_filters.iter().any(|tf| !crate::topic::is_valid(tf)) {
                     Err(SpecViolation::Subs_4_7_1.into())
